@@ -35,6 +35,17 @@ var polyKinds = []string{"zero", "const", "unit", "sparse", "max", "lowdeg", "ra
 var zPatterns = []string{"allequal", "alldistinct", "twofar", "random", "clustered", "everyindex", "random"}
 
 func genLabel(r *Rng) string {
+	switch r.Intn(40) {
+	case 38:
+		// longer than any buffer a transcript might pre-allocate
+		b := make([]byte, 1100+r.Intn(3000))
+		for i := range b {
+			b[i] = byte(r.U64())
+		}
+		return string(b)
+	case 39:
+		return "a\x00b" + string([]byte{0, 0xff, 0x80, byte(r.U64())})
+	}
 	switch r.Intn(5) {
 	case 0:
 		return ""
